@@ -131,6 +131,8 @@ private:
   req_compactor(bool hra, uint8_t lg_weight, bool sorted, float section_size_raw, uint8_t num_sections, uint64_t state,
       std::unique_ptr<T, items_deleter> items, uint32_t num_items, const Comparator& comparator, const Allocator& allocator);
 
+  static void check_header(float section_size_raw, uint8_t lg_weight, uint8_t num_sections);
+
   template<typename S>
   static std::unique_ptr<T, items_deleter> deserialize_items(std::istream& is, const S& serde, const Allocator& allocator, uint32_t num);
 
